@@ -38,9 +38,12 @@ Isolation(s, r) ==
          \* the saved stack pointer of the state before.)
          /\ \A a \in ObsAddrs(p) \cup DiffAddrs(p) :
                InUser(a) \/ (a >= IO_START /\ (a = Wrap(s.ssp.v - 1) \/ a = Wrap(s.ssp.v - 2)))
-         \* a rejected attempt leaves memory and devices untouched
+         \* a rejected attempt leaves memory and devices untouched.  (Same gadget: an exception entry whose pushes
+         \* land on the PSR port drops back to user mode, and its own vector read is then rejected - the pushes
+         \* next to the saved stack pointer in the I/O page are not the program's doing.)
          /\ r.res \in {"AccessViolation", "PrivilegeViolation"} =>
-               (p.memdiff = <<>> /\ p.kbd = s.kbd /\ p.disp = s.disp)
+               /\ \A a \in DiffAddrs(p) : a >= IO_START /\ (a = Wrap(s.ssp.v - 1) \/ a = Wrap(s.ssp.v - 2))
+               /\ p.kbd = s.kbd /\ p.disp = s.disp
          \* no RTI executes in user mode (in strict mode a word that is not fully initialized is not
          \* decoded at all: the step stops with StrictPCCurrUninit before there is an instruction)
          /\ (InUser(s.pc) /\ Rd(s, s.pc).v = 32768 /\ ~(Strict(s) /\ ~IsInit(Rd(s, s.pc))))
